@@ -1,11 +1,17 @@
 //! One monitor per property.
 pub mod c01;
+pub mod c02;
+pub mod c16;
+pub mod c18;
 
 use crate::core::{Ctx, Report};
 
 pub fn run(property: &str, ctx: &Ctx) -> Option<Report> {
     Some(match property {
         "C01" => c01::run(ctx),
+        "C02" => c02::run(ctx),
+        "C16" => c16::run(ctx),
+        "C18" => c18::run(ctx),
         _ => return None,
     })
 }
